@@ -12,7 +12,8 @@
    -128..127 (for rArrayI, whose local is a char whatever the element type,
    also the stored value: C14_arrayI_wide_element_refuted), floats without NaN. *)
 From Coq Require Import List ZArith.
-From RtoscV Require Import Ports.SugarModel Ports.SugarProofs Ports.SugarRegress Ports.SugarReplay.
+From RtoscV Require Import Ports.SugarModel Ports.SugarProofs Ports.SugarRegress Ports.SugarReplay
+     Ports.SugarOptions Ports.SugarOptionsProofs.
 Import ListNotations.
 Local Open Scope Z_scope.
 
@@ -352,3 +353,18 @@ Theorem C14_member_toggle : forall e ds rest arr cur loc a t,
   rArrayTCbMember e loc (array_address e ds rest) arr [] =
     Some (arr, [Reply (mk loc [if cur =? 0 then AFalse else ATrue])]).
 Proof. exact member_toggle. Qed.
+
+(* "option symbols translated to their index" for a list declared with rOptions(s_0, ..., s_{n-1})
+   (any n, pairwise distinct symbols): symbol number i is stored as i, with the undo / broadcast
+   contract of a set.  The tie drives one such port per argument count the macro family supports. *)
+Theorem C14_option_symbol_position : forall e loc old syms i s,
+  p_map e = rOptions_decl syms -> NoDup syms -> nth_error syms i = Some s ->
+  exists res, rOptionCb e loc old [ASy s] = Some res /\
+              set_spec zkey Ai Ai None None loc old (Z.of_nat i) res.
+Proof. exact rOptionCb_symbol_position. Qed.
+
+Theorem C14_option_symbol_position_nonvacuous :
+  let syms := [[97]; [98]; [99]; [100]; [101]; [102]; [103]; [104]; [105]; [106]; [107;105;108;111]] in
+  NoDup syms /\ nth_error syms 10 = Some [107;105;108;111] /\
+  symbol_index (rOptions_decl syms) [107;105;108;111] = Some 10.
+Proof. exact symbol_position_nonvacuous. Qed.
